@@ -272,7 +272,7 @@ func (s *Server) blobUploadPost(repoStr string) http.HandlerFunc {
 			br := &bodyReader{r: r.Body}
 			_, err = io.Copy(bc, br)
 			if err != nil {
-				copyBodyStatus(w, br)
+				copyBodyStatus(w, br, err)
 				s.log.Info("failed to copy blob content", "repo", repoStr, "digest", dStr, "err", err)
 				return
 			}
@@ -435,7 +435,7 @@ func (s *Server) blobUploadPatch(repoStr, sessionID string) http.HandlerFunc {
 		br := &bodyReader{r: r.Body}
 		_, err = io.Copy(bc, br)
 		if err != nil {
-			copyBodyStatus(w, br)
+			copyBodyStatus(w, br, err)
 			s.log.Error("failed to write blob", "err", err, "repo", repoStr, "sessionID", sessionID)
 			return
 		}
@@ -531,12 +531,18 @@ func (s *Server) blobUploadPut(repoStr, sessionID string) http.HandlerFunc {
 		br := &bodyReader{r: r.Body}
 		_, err = io.Copy(bc, br)
 		if err != nil {
-			copyBodyStatus(w, br)
+			copyBodyStatus(w, br, err)
 			s.log.Error("failed to write blob", "err", err, "repo", repoStr, "sessionID", sessionID)
 			return
 		}
 		// verify the digest and close or cancel
 		err = bc.Verify(d)
+		if err != nil && errors.Is(err, types.ErrNotFound) {
+			// the session was canceled or expired while the request was being processed
+			w.WriteHeader(http.StatusBadRequest)
+			_ = types.ErrRespJSON(w, types.ErrInfoBlobUploadUnknown("upload session not found"))
+			return
+		}
 		if err != nil {
 			s.log.Error("invalid digest", "err", err, "repo", repoStr, "sessionID", sessionID, "expected", bc.Digest().String(), "received", d.String(), "size", bc.Size())
 			if err = bc.Cancel(); err != nil {
@@ -548,6 +554,12 @@ func (s *Server) blobUploadPut(repoStr, sessionID string) http.HandlerFunc {
 		}
 		err = bc.Close()
 		if err != nil {
+			if errors.Is(err, types.ErrNotFound) {
+				// the session was canceled or expired while the request was being processed
+				w.WriteHeader(http.StatusBadRequest)
+				_ = types.ErrRespJSON(w, types.ErrInfoBlobUploadUnknown("upload session not found"))
+				return
+			}
 			w.WriteHeader(http.StatusInternalServerError)
 			s.log.Error("failed to close blob upload", "err", err, "repo", repoStr, "sessionID", sessionID)
 			return
@@ -579,10 +591,16 @@ func (br *bodyReader) Read(p []byte) (int, error) {
 }
 
 // copyBodyStatus returns the status for a failed copy of the request body.
-func copyBodyStatus(w http.ResponseWriter, br *bodyReader) {
+func copyBodyStatus(w http.ResponseWriter, br *bodyReader, err error) {
 	if br.err != nil {
 		w.WriteHeader(http.StatusBadRequest)
 		_ = types.ErrRespJSON(w, types.ErrInfoBlobUploadInvalid("failed to read the request body"))
+		return
+	}
+	if errors.Is(err, types.ErrNotFound) {
+		// the session was canceled or expired while the body was being received
+		w.WriteHeader(http.StatusBadRequest)
+		_ = types.ErrRespJSON(w, types.ErrInfoBlobUploadUnknown("upload session not found"))
 		return
 	}
 	w.WriteHeader(http.StatusInternalServerError)
